@@ -183,6 +183,16 @@ def run(ctx):
         if first:
             analyse(ctx, slow, first, False, "first invocation (with a refused second one)")
         kinds["second-" + ("resumed" if resumed else "fresh")] = kinds.get("second-" + ("resumed" if resumed else "fresh"), 0) + 1
+    # ---- two parallel steps that fail in overlapping windows, the first one leaving a child behind that keeps its
+    # output open for a while (its record is written only then): each record and hook call carries its own step's exit
+    for t in range(ctx.n(1, 6)):
+        e1, e2 = (1, 3) if t == 0 else rng.choice([(1, 3), (2, 1), (7, 9), (1, 0), (0, 5)])
+        ocfg = dict(steps=[("first", False, 0, 0), ("p1", True, 0, e1), ("p2", True, rng.choice([600, 1000]), e2), ("last", False, 0, 0)],
+                    skip=[], cmdline_skip=[], ncpu=2, linger={"p1": rng.choice([1800, 2500])})
+        detach = (t % 3 == 2)
+        res = cr.run(ocfg, detach=detach)
+        analyse(ctx, ocfg, res, detach, "canvas%s with two parallel steps finishing in overlapping windows" % ("" if detach else " -d"))
+        kinds["overlapping-parallel-failures"] = kinds.get("overlapping-parallel-failures", 0) + 1
     # ---- ended by robsd-kill (the immutable flag emulated by the chflags/touch/rm shims): the step that runs is
     # terminated and recorded, hook and report follow, the lock is gone afterwards and
     # the next invocation is accepted
@@ -257,7 +267,7 @@ def run(ctx):
     ctx.cov.update(dict(
         evaluations=n + sum(v for k, v in kinds.items() if k.startswith("second") or k == "resumed"), distinct_nontrivial=len(distinct),
         rule="the C04 canvas generator, foreground (-d) and background (mail captured), resumed after a failure, and a second fresh/resumed invocation "
-             "started while a slow first one holds the lock; invocations ended by robsd-kill while a sequential / parallel step runs (immutable flag emulated by shims; compared with Lock.killed); for each run: records (one per executed step, real exit, duration >= 0, own log holding the output), skip "
+             "started while a slow first one holds the lock; two parallel steps failing in overlapping windows (the first keeps its output open through a lingering child); invocations ended by robsd-kill while a sequential / parallel step runs (immutable flag emulated by shims; compared with Lock.killed); for each run: records (one per executed step, real exit, duration >= 0, own log holding the output), skip "
              "records, no in-flight record, hook calls (with the builddir they saw), lock content sampled by the probes and gone afterwards, report iff failed or end, "
              "mail once iff background; non-trivial = distinct (configuration, mode)",
         samples=[dict(request=q[:200], impl=w) for q, w in list(zip(reqs, wants))[:3]],
